@@ -234,6 +234,12 @@ def run_one(ck, prog):
             facts = panics.dominating_facts(ctx, mb)
             at_end = any(f[0] == "truth" and f[2] is True and isinstance(f[1], tuple) and f[1][0] == "call" and (f[1][1] or "").endswith("::is_null") for f in facts)
             after_match = cfg.dominates(m[0], mb)
+            if not at_end:
+                # several `break`s joining in front of one `Missing`: every way in passes an edge on which a pointer was found null
+                null_edges = {(e.src, e.dst) for sb in cfg.live_blocks() if cfg.term(sb)["k"] == "switch" for e in cfg.succ[sb] for f in ctx.edge_facts(e)
+                              if f[0] == "truth" and f[2] is True and isinstance(f[1], tuple) and f[1][0] == "call" and (f[1][1] or "").endswith("::is_null")}
+                at_end = bool(null_edges) and mb not in cfg.reachable_from(0, avoid_edges=null_edges)
+                after_match = mb in cfg.reachable_from(m[0], avoid_edges=null_edges)
             ck.ob("C07.1", f"{nm}|missing-only-at-end-of-environment|#{k}", at_end and not after_match, fn=nm, site=ctx.site(mb),
                   detail="`Missing` is returned from inside the scan (after looking at one entry) instead of only when the NULL entry is reached: a longer name sharing the key as prefix (HOMEDRIVE before HOME) hides the real variable")
         steps = []
